@@ -255,6 +255,8 @@ def rule_site(ctx, E):
     nput = 0
     for p in ret_paths(ev):
         ta = [e.a for e in p.calls('take_axis')]
+        if not ta and not list(p.calls('put')) and any(a[0] == 'cmp' and a[1] == '==' and a[3] == const(0) and 'size' in T.show(a[2]) and pol is True for a, pol in p.guards):
+            continue          # empty source axis: built per variable by DimArray.reindex_axis, nothing is written in place
         if len(ta) != 1 or T.call_receiver(ta[0]) != SELF:
             ctx.undecide('R4', 'Dataset.reindex_axis: take_axis step not recognised')
             return
